@@ -89,6 +89,7 @@ type CmdDef struct {
 	ArgFn        bool        `json:"argfn,omitempty"`
 	ArgFnSlow    bool        `json:"argfn_slow,omitempty"` // a further dynamic completion function that takes 1.5 s to answer (a network lookup)
 	SynArgs      [][2]string `json:"synargs,omitempty"`
+	ReqArgs      int         `json:"req_args,omitempty"`  // the command function fetches this many positional arguments with GetRequiredArg
 	SelfDesc     bool        `json:"self_desc,omitempty"` // cmd.Self("", text) is called on the command: the documented way to give it a long description
 }
 
@@ -255,6 +256,9 @@ type CallRec struct {
 	Args    []string
 	ArgsNil bool
 	CtxOK   bool
+	// results of the ReqArgs calls of GetRequiredArg the function makes (value, failed)
+	ReqArgs    []string
+	ReqArgErrs []bool
 	Vals    map[string]string // Value(name) inside the function for own+inherited primary names
 	Called  map[string]bool
 }
@@ -271,6 +275,9 @@ type Prog struct {
 	ctx    context.Context
 	envSet []string
 	Fns    int // completion functions invoked
+	// a panic or an exhausted loop budget while the program was being declared (GetEnv reads the environment then)
+	DefPanic string
+	DefHang  bool
 }
 
 type ctxKey struct{}
@@ -305,6 +312,13 @@ func Build(def *Def, env map[string]string) *Prog {
 	}
 	getoptions.VerifSetExit(func(code int) { p.Exits = append(p.Exits, code) })
 	p.ctx = context.WithValue(context.Background(), ctxKey{}, p)
+	verifrt.SetTickBudget(tickBudget)
+	defer verifrt.SetTickBudget(0)
+	p.DefPanic, p.DefHang = guard(func() { p.declare(def, setEnv) })
+	return p
+}
+
+func (p *Prog) declare(def *Def, setEnv func()) {
 	opt := getoptions.New()
 	if def.LateEnv {
 		setEnv()
@@ -339,7 +353,6 @@ func Build(def *Def, env map[string]string) *Prog {
 		}
 		opt.HelpCommand(def.Help, fns...)
 	}
-	return p
 }
 
 // Reset forgets what the harness recorded so far (CommandFn calls, Writer, exits), so that a further
@@ -595,7 +608,17 @@ func (l *level) visible() []*optHandle {
 
 func (p *Prog) record(l *level, path string, ctx context.Context, o *getoptions.GetOpt, args []string) {
 	rec := CallRec{Path: path, Args: append([]string(nil), args...), ArgsNil: args == nil, Vals: map[string]string{}, Called: map[string]bool{}}
-	rec.CtxOK = ctx != nil && ctx.Value(ctxKey{}) == p
+	rec.CtxOK = ctx != nil && ctx == p.ctx // the caller's context itself, not one derived from it
+	if n := l.def.ReqArgs; n > 0 {
+		rest := args
+		for i := 0; i < n; i++ {
+			var v string
+			var err error
+			v, rest, err = o.GetRequiredArg(rest, getoptions.HelpNone)
+			rec.ReqArgs = append(rec.ReqArgs, v)
+			rec.ReqArgErrs = append(rec.ReqArgErrs, err != nil)
+		}
+	}
 	for _, h := range l.visible() {
 		rec.Vals[h.path] = renderAny(o.Value(h.def.Name))
 		rec.Called[h.path] = o.Called(h.def.Name)
@@ -651,6 +674,13 @@ func guard(f func()) (panicked string, hang bool) {
 // Run executes Parse (and Dispatch when dispatch is set and Parse succeeded).
 func (p *Prog) Run(argv []string, dispatch bool) *Outcome {
 	o := &Outcome{}
+	if p.DefPanic != "" || p.DefHang {
+		o.Panic, o.Hang = p.DefPanic, p.DefHang
+		if o.Panic != "" {
+			o.Panic = "while the program was being declared: " + o.Panic
+		}
+		return o
+	}
 	// loop budget: generous for ordinary inputs, and growing with the square of the input size so that
 	// work that is merely quadratic in a 10^4-byte token is not mistaken for a hang
 	n := int64(len(os.Getenv("COMP_LINE")))
